@@ -521,6 +521,23 @@ func (e *Engine) evalCall(x *Expr, se *SpecEnv) Val {
 		return mkInt(a.L[0])
 	case "loglen":
 		return mkInt(e.logLen(se.st, x.Args[0].Name))
+	case "logarg":
+		// logarg(cb, i, k): argument i of the k-th invocation of callback cb
+		name := x.Args[0].Name
+		l, ok := se.st.logs[name]
+		if !ok {
+			l = e.logFromSig(se.st, name)
+			if l == nil {
+				panic(unsupported("no call log for %s", name))
+			}
+		}
+		ai := int(x.Args[1].Int)
+		k := arg(2).L[0]
+		out := Val{T: l.ArgT[ai], L: make([]Term, len(l.Args[ai]))}
+		for li, arr := range l.Args[ai] {
+			out.L[li] = Select(arr, k)
+		}
+		return out
 	case "inv":
 		return e.evalTypeInv(arg(0), se)
 	case "unchanged":
